@@ -119,6 +119,11 @@ type dataFamily struct {
 	lastFlushTime  int64
 	interval       timeutil.Interval
 	mutex          sync.Mutex
+	// replica write = ValidateSequence -> write rows -> CommitSequence, the memory database which is switched
+	// for flushing must contain the rows of committed sequences only, and all of them.
+	replicaWrites int        // number of replica writes in flight
+	switching     bool       // waiting for replica writes in flight before switching memory database
+	replicaCond   *sync.Cond // notify replica write completed/switch completed(under mutex)
 }
 
 // newDataFamily creates a data family storage unit
@@ -149,6 +154,7 @@ func newDataFamily(
 		statistics: metrics.NewFamilyStatistics(dbName, shardIDStr),
 		logger:     logger.GetLogger("TSDB", "Family"),
 	}
+	f.replicaCond = sync.NewCond(&f.mutex)
 	// get current persist write sequence
 	snapshot := family.GetSnapshot()
 	defer snapshot.Close()
@@ -272,6 +278,8 @@ func (f *dataFamily) Flush() error {
 
 		// add lock when switch memory database
 		f.mutex.Lock()
+		// wait replica writes in flight, their rows are in the memory database but their sequences not committed.
+		f.waitReplicaWrites()
 		if f.immutableMemDB != nil || f.mutableMemDB == nil || f.mutableMemDB.NumOfSeries() == 0 {
 			// if immutable memory database not nil or no data need flush, return it
 			f.mutex.Unlock()
@@ -591,10 +599,26 @@ func (f *dataFamily) ValidateSequence(leader int32, seq int64) bool {
 	f.mutex.Lock()
 	defer f.mutex.Unlock()
 
-	if seqForLeader, ok := f.seq[leader]; ok {
-		return seq > seqForLeader.Load()
+	for f.switching {
+		// memory database is switching, new replica write need wait
+		f.replicaCond.Wait()
 	}
+	if seqForLeader, ok := f.seq[leader]; ok && seq <= seqForLeader.Load() {
+		return false
+	}
+	// replica write starts, completes when commit sequence
+	f.replicaWrites++
 	return true
+}
+
+// waitReplicaWrites waits until no replica write is in flight(family's lock must be held).
+func (f *dataFamily) waitReplicaWrites() {
+	f.switching = true
+	for f.replicaWrites > 0 {
+		f.replicaCond.Wait()
+	}
+	f.switching = false
+	f.replicaCond.Broadcast()
 }
 
 // CommitSequence commits written sequence after write data.
@@ -605,6 +629,12 @@ func (f *dataFamily) CommitSequence(leader int32, seq int64) {
 	seqForLeader := f.seq[leader]
 	seqForLeader.Store(seq)
 	f.seq[leader] = seqForLeader
+	if f.replicaWrites > 0 {
+		f.replicaWrites--
+		if f.replicaWrites == 0 {
+			f.replicaCond.Broadcast()
+		}
+	}
 }
 
 // AckSequence acknowledges sequence after memory database flush successfully.
@@ -656,6 +686,8 @@ func (f *dataFamily) Close() error {
 	defer f.mutex.Unlock()
 
 	f.flushCondition.Wait()
+	// wait replica writes in flight, their rows are in the memory database but their sequences not committed.
+	f.waitReplicaWrites()
 
 	// NOTE: family's lock is held, readers cannot see the memory database and its file at the same time
 	if f.immutableMemDB != nil {
